@@ -116,6 +116,10 @@ def run(ctx):
         for nf in (1, 2):
             faults.append({"tag": "lockedread", "files": nf, "recs": n, "fault": {"phase": "none", "file": 0, "rec": 0}, "ok": True,
                            "visible": [], "stored": [], "failedfile": 0})
+    # many INSERT batches already sent (one per record of ~250 labels) when the last part fails
+    for n in ((70, 130) if q else (70, 130, 200, 400)):
+        faults.append({"tag": "widefault", "files": 2, "recs": n, "fault": {"phase": "none", "file": 0, "rec": 0}, "ok": False,
+                       "visible": [], "stored": [], "failedfile": 0})
     ctx.add_samples([faults[len(faults) // 2], ids[len(ids) // 2]], 2)
     ctx.replay("upload", faults, "single-fault scenarios against the /upload handler", timeout=3000)
     evp = os.path.join(ctx.work, "id-events.ndjson")
